@@ -18,7 +18,8 @@ TRUSTED = [
     "the system-call seam (fork/kill/pipes/stat) is replaced by scripted answers; the child side of fork is Model/Child (C18)",
     "docs/subprocess.rst's transition diagram is not parsed: the edge list of the property statement is written in Props/C01.lean; the documented state list is extracted",
 ]
-ASSUMPTIONS = ["a reap is only generated for a process that currently has a forked, unreaped child (as waitpid guarantees)"]
+ASSUMPTIONS = ["a reap is only generated for a process that currently has a forked, unreaped child (as waitpid guarantees)",
+               "FastCGI programs: FastCGISubprocess.spawn/finish (socket manager hooks) are exercised by the monitors on the real classes with a scripted socket manager, not modelled in Lean; observation on the unchanged tree: a failure to (re)create the FastCGI socket propagates out of spawn() and transition() as an exception (state unchanged, nothing announced)"]
 RULE = ("cases = operation histories (5-60 ops over transition/reap/rpcstart/rpcstop/rpcsignal/groupstop/stopreport) on a "
         "random program configuration, clock steps in {0, fractions, seconds, long gaps, backward jumps}, all spawn and "
         "signal-delivery outcomes; non-trivial = at least one state change; distinct = distinct canonical output trace")
@@ -63,14 +64,16 @@ def monitor(ctx, cfg, ops, lines):
             ctx.count('exception:' + err)
 
 
-def one_history(ctx, rng, nops, cfg=None, script=None):
+def one_history(ctx, rng, nops, cfg=None, script=None, fcgi=False):
     cfg = cfg or gen_cfg(rng)
-    h = L1(cfg)
+    h = L1(cfg, fcgi=fcgi)
     try:
         ops, lines = [], []
         gen = gen_ops(rng, nops)
         for k in range(nops):
             op = script[k] if script else gen(h.proc)
+            if fcgi and not script and op['op'] in ('transition', 'rpcstart') and rng.random() < 0.3:
+                op = dict(op, sock='fail')           # the FastCGI socket cannot be (re)created for this start attempt
             ops.append(op)
             lines.append(h.do(op))
             ctx.count('op:' + op['op'])
@@ -110,6 +113,13 @@ def run(ctx):
     for cfg, script in CORPUS:
         add(*one_history(ctx, rng, len(script), cfg, script))
     ctx.sample({'case': cases[0][0], 'ops': cases[0][1], 'impl': impls[0]})
+    # FastCGI programs (FastCGISubprocess.spawn/finish hook the socket manager in): monitors only -- the hooks are not in the
+    # Lean model, so these histories are not sent to the correspondence
+    for _ in range(ctx.n(400, 6000)):
+        cfg, ops, lines = one_history(ctx, rng, rng.choice([5, 10, 20, 40]), fcgi=True)
+        monitor(ctx, dict(cfg, fcgi=True), ops, lines)
+        ctx.case_done(('fcgi',) + tuple(lines), nontrivial=sum(l.count('ev:') for l in lines) > 0)
+        ctx.count('fcgi-histories')
     total = ctx.n(5000, 60000)
     done = 0
     while done < total:             # in chunks, so that a thorough run does not hold every trace in memory
@@ -126,9 +136,11 @@ def replay(ctx, data):
     inp = data['input']
     cfg = inp['cfg']
     ops = [dict(o, spawn=tuple(o['spawn'])) if 'spawn' in o else o for o in inp['ops']]
-    cfg2, ops2, lines = one_history(ctx, ctx.rng, len(ops), cfg, ops)
+    fcgi = bool(cfg.get('fcgi'))
+    cfg2, ops2, lines = one_history(ctx, ctx.rng, len(ops), {k: v for k, v in cfg.items() if k != 'fcgi'}, ops, fcgi=fcgi)
     monitor(ctx, cfg, ops, lines)
-    ctx.correspond('proc', [(cfg_line(cfg), [op_line(o) for o in ops])], [lines])
+    if not fcgi:
+        ctx.correspond('proc', [(cfg_line(cfg), [op_line(o) for o in ops])], [lines])
 
 
 TECHNIQUE = "Lean 4 invariant/induction theorems over a Subprocess model whose guards, timers and asserted state lists are regenerated from process.py; differential correspondence against the real Subprocess/ProcessGroup/rpcinterface"
